@@ -101,6 +101,7 @@ macro_rules! share_job {
           for k in 0..handles.len() {
             if handles[k].is_some() {
               menu.push(("unsubscribe", k));
+              menu.push(("drop-guard", k));
             }
           }
           if src == SrcKind::Hot {
@@ -155,8 +156,12 @@ macro_rules! share_job {
                 }
               }
             }
-            "unsubscribe" => {
-              handles[arg].take().unwrap().unsubscribe();
+            "unsubscribe" | "drop-guard" => {
+              if act == "drop-guard" {
+                drop(handles[arg].take().unwrap().unsubscribe_when_dropped());
+              } else {
+                handles[arg].take().unwrap().unsubscribe();
+              }
               left_at[arg] = Some(emitted.len());
               if handles.iter().all(|h| h.is_none()) && src_term.is_none() {
                 all_left = true;
@@ -266,6 +271,101 @@ macro_rules! share_job {
 
 share_job!(share_local, Subject<'static, V, E>, share, "share", BoxSubscription, BoxOp, merge);
 share_job!(share_threads, SubjectThreads<V, E>, share_threads, "share_threads", BoxSubscriptionThreads, BoxOpThreads, merge_threads);
+
+/// hot source -> tap -> take(2) -> share: the shared stream completes by itself
+/// while the hot source lives on. Whoever leaves last — by unsubscribe() or by
+/// dropping a guard, before or after that completion — releases the source.
+macro_rules! share_cut_job {
+  ($fname:ident, $subj:ty, $share:ident, $label:expr, $boxsub:ident) => {
+    fn $fname(len: usize) -> Job {
+      Job::new(format!("{} hot source behind tap.take(2) L{len}", $label), move |ch, obs| {
+        let _w = world::World::new();
+        let taps = Arc::new(AtomicUsize::new(0));
+        let mut hot = <$subj>::default();
+        let t2 = taps.clone();
+        let shared = hot
+          .clone()
+          .tap(move |_| {
+            t2.fetch_add(1, Ordering::SeqCst);
+          })
+          .take(2)
+          .$share();
+        let mut probes: Vec<Probe> = vec![];
+        let mut handles: Vec<Option<$boxsub>> = vec![];
+        let mut frozen: Option<usize> = None;
+        let mut hist: Vec<String> = vec![];
+        for _ in 0..len {
+          let mut menu: Vec<(&str, usize)> = vec![];
+          if probes.len() < 2 && frozen.is_none() {
+            menu.push(("subscribe", 0));
+          }
+          for k in 0..handles.len() {
+            if handles[k].is_some() {
+              menu.push(("unsubscribe", k));
+              menu.push(("drop-guard", k));
+            }
+          }
+          menu.extend([("src next", 0), ("src complete", 0)]);
+          let (act, arg) = menu[ch.choose(menu.len())];
+          ch.label(|| format!("{act}({arg})"));
+          hist.push(format!("{act}({arg})"));
+          world::bump_step();
+          match act {
+            "subscribe" => {
+              let p = Probe::new();
+              probes.push(p.clone());
+              handles.push(Some($boxsub::new(shared.clone().actual_subscribe(p))));
+            }
+            "unsubscribe" | "drop-guard" => {
+              let h = handles[arg].take().unwrap();
+              if act == "drop-guard" {
+                drop(h.unsubscribe_when_dropped());
+              } else {
+                h.unsubscribe();
+              }
+              if handles.iter().all(|h| h.is_none()) {
+                frozen = Some(taps.load(Ordering::SeqCst));
+              }
+            }
+            "src next" => hot.next(V::I(0)),
+            _ => hot.clone().complete(),
+          }
+          obs.checks += 1;
+          if let Some(f) = frozen {
+            let now = taps.load(Ordering::SeqCst);
+            if now != f {
+              obs.fail(
+                format!("c11:{}:driven-after-last-unsubscribe", $label),
+                format!("after [{}]: every subscriber has left at {f} upstream tap calls, now {now}", hist.join(" ")),
+              );
+              break;
+            }
+          }
+          for (k, p) in probes.iter().enumerate() {
+            let n = p.notes();
+            let items = n.iter().filter(|x| !x.is_terminal()).count();
+            if items > 2 || !p.grammar_ok() {
+              obs.fail(
+                format!("c11:{}:multicast", $label),
+                format!("after [{}]: subscriber {k} of take(2).share saw [{}]", hist.join(" "), fmt_notes(&n)),
+              );
+            }
+          }
+          if !obs.viol.is_empty() {
+            break;
+          }
+        }
+        obs.delivered = probes.iter().map(|p| p.len() as u64).sum::<u64>() + taps.load(Ordering::SeqCst) as u64;
+        for p in &probes {
+          obs.note_outcome(&p.notes());
+        }
+        obs.note_outcome(&taps.load(Ordering::SeqCst));
+      })
+    }
+  };
+}
+share_cut_job!(share_cut_local, Subject<'static, V, E>, share, "share", BoxSubscription);
+share_cut_job!(share_cut_threads, SubjectThreads<V, E>, share_threads, "share_threads", BoxSubscriptionThreads);
 
 /// publish + fork + connect
 fn publish_job(src: SrcKind, len: usize) -> Job {
@@ -439,13 +539,15 @@ pub fn plan(tier: Tier) -> Plan {
     }
     jobs.push(publish_job(src, len));
   }
+  jobs.push(share_cut_local(len + 1));
+  jobs.push(share_cut_threads(len + 1));
   Plan {
     jobs,
     finish: Finish {
       prop: "C11".into(),
       tier: tier_name(tier),
       engine: "E1 opseq".into(),
-      rule: "every history up to the length bound over {subscribe (<=3), unsubscribe(k), source next(0)/next(1)/complete/error, connect} for share / share_threads (hot and cold synchronous source, behind tap or tap+map+scan carrying counters) and publish + fork + connect; after every step: source subscription counter (0 before connect, exactly 1 after the first join, never 2), every subscriber's trace = items emitted while it was present + the terminal, and after the last subscriber has left neither the upstream tap counter nor the subscription counter moves; non-trivial = a probe received something".into(),
+      rule: "every history up to the length bound over {subscribe (<=3), unsubscribe(k), dropping an unsubscribe_when_dropped guard(k), source next(0)/next(1)/complete/error, connect} for share / share_threads (hot and cold synchronous source, behind tap or tap+map+scan carrying counters) and publish + fork + connect, and share behind tap.take(2) over a hot source that outlives the shared stream (every subscriber gone = upstream tap counter frozen); after every step: source subscription counter (0 before connect, exactly 1 after the first join, never 2), every subscriber's trace = items emitted while it was present + the terminal, and after the last subscriber has left neither the upstream tap counter nor the subscription counter moves; non-trivial = a probe received something".into(),
       bounds: json!({"history_len": len, "subscribers": MAX_SUBS}),
       assumptions: vec!["what a subscriber that joins after the reference count went back to zero receives is not asserted".into()],
     },
